@@ -473,7 +473,7 @@ func (c *Ctx) c03ErrorEdges() {
 			}
 			okAll := true
 			for _, e := range fails {
-				inLoop := fn.Name() == "consumeSingleCommand" // the only place where a session can recover from an oversized message
+				inLoop := fn == c.P.Method("wire", "Session", "consumeSingleCommand") // the only place where a session can recover from an oversized message
 				reach := reachableAvoiding(e.to(), func(b *ssa.BasicBlock) bool {
 					return inLoop && recovers(b)
 				})
